@@ -97,8 +97,12 @@ pub const CONTEXTS: &[Ctx1] = &[
     cx!("`#((K . ,•) (K . ,(p K)) K)"),
     // a vector template as the dotted tail of a list template
     cx!("`(K . #(K ,•))"),
+    // a nested quasiquote as the dotted tail of a template opens a level like any other
+    cx!("`(K . `(K ,,•))"),
     // a compound key before a clause with =>: the key is evaluated once
     cx!("(case (car (list •)) ((11 12 13 14 15 16 17 18 19 20 21 22 23 24 25 26 27 28 29 30 31 32 33 34 35 36 37 38 39 40) => (lambda (x) (list 'c x))) ((s) 'sym) (else => (lambda (x) (list 'e x))))", &[]),
+    // a => clause as the last clause of a case without else
+    cx!("(case • ((s) 'sym) ((11 12 13 14 15 16 17 18 19 20 21 22 23 24 25 26 27 28 29 30 31 32 33 34 35 36 37 38 39 40) => (lambda (x) (list 'last x))))", &[]),
     // conditionals whose other arm is a derived form (a call of a fresh closure in tail position)
     cx!("(if #t • (let () K))"),
     cx!("(if #f (begin (p K) K) •)"),
@@ -420,6 +424,8 @@ pub const SESSION_FORMS: &[&str] = &[
     "(define (u) (abs -5))",
     "(define (abs x) (list 'mine x))",
     "(u)",
+    // a begin at the outermost level is spliced: its definitions are top-level definitions
+    "(begin (define g 5) (define (f) (list 'spliced g)) (f))",
 ];
 const REDEFINES_BUILTIN: usize = 15;
 
@@ -611,7 +617,7 @@ pub fn run(ctx: &Ctx) -> i32 {
     // E. conditional trees: every tree of `if` forms of depth <= 2 over five kinds of leaves and constant tests,
     // as a top-level form (tail position), as an operand and as the body of a called procedure
     {
-        let leaves = ["K", "(p K)", "(let () K)", "(begin (p K) K)", "(gid K)"];
+        let leaves = ["K", "(p K)", "(let () K)", "(begin (p K) K)", "(gid K)", "(set! g K)", "(set! g (if #f K K))", "(set! g (and K K))"];
         let mut level: Vec<String> = leaves.iter().map(|s| s.to_string()).collect();
         let mut trees: Vec<String> = level.clone();
         for _ in 0..2 {
@@ -629,7 +635,17 @@ pub fn run(ctx: &Ctx) -> i32 {
         }
         let programs: Vec<String> = trees
             .iter()
-            .flat_map(|t| vec![t.clone(), format!("(list (p K) {} (p K))", t), format!("((lambda (v) {}) K)", t)])
+            .flat_map(|t| {
+                vec![
+                    t.clone(),
+                    format!("(list (p K) {} (p K))", t),
+                    format!("((lambda (v) {}) K)", t),
+                    // statement position: what follows starts by loading a variable or a constant
+                    format!("((lambda (v) {} (list g v K)) K)", t),
+                    format!("(let ((v K)) {} v)", t),
+                    format!("((lambda (v) {} K) K)", t),
+                ]
+            })
             .map(|t| number_ks(&t))
             .collect();
         let n = programs.len() as u64;
@@ -651,7 +667,7 @@ pub fn run(ctx: &Ctx) -> i32 {
     rep.transitions = Some(acc.evals * 3);
     rep.traces_validated = Some(acc.nontrivial + val.forms_agreeing);
     rep.rule = format!(
-        "A. every chain of <= {} one-hole contexts ({} contexts, the 24 extended ones - nested quasiquote, case =>, multi-expression cond clause, multi-list map / for-each, let with internal define, empty let*, a promise forced twice, apply of map, accumulating named let, and / or / when / unless / one-armed if with the hole as a non-final operand or test, set! of a global - only below the maximal depth: operand positions, fixed/variadic/rest lambdas, apply, let/let*/letrec/named let, begin, if, cond (else, =>, test-only), case (clause, key, else =>), and/or/when/unless, quasiquote (list, vector, nested, cdr), delay/force, internal defines, set!, map/for-each callbacks, call/cc (return, escape), returned closure, constructors, global procedure, eval) around each of {} leaves (constants of every data kind, innermost/outer local, global, set!-then-read of local/global, immediate closure, let rebinding, quasiquote templates over a local, fixed/variadic/apply calls of globals, a logging call, five failures) = {} programs, each run as the session (define g 100); program; g on the real VM and on the reference CEK machine and compared form by form (value or failure, display/write output); B. every sequence of <= {} of the {} top-level forms over globals g h f (definitions, redefinitions, set!, late-bound procedure bodies, calls) = {} sessions, renamed apart inside a shared VM and (length <= 3) verbatim in a fresh VM; E. every tree of if forms of depth <= 2 (one- and two-armed, constant tests, five kinds of leaves incl. let and begin bodies) as a top-level form, as an operand and as a procedure body; D. sixteen programs whose variables are spelled like the temporaries (var1, temp, atom-key), the free identifiers (not, memv, make-promise, begin) and the keywords (and, when) of the prelude's derived-form macros, or that define the prelude's helper procedures (any?, map1), with controls; C. every chain program of depth <= 2 also runs in a VM that first evaluated 60 unrelated globals, 5 macros, garbage and a collection, and (all of depth <= 1, every {}th of depth 2) twice in fresh VMs; all observations must be equal. Non-trivial = a program or session on which model and implementation agreed on every form (programs the model excludes - R7RS prescribes no outcome - are counted separately).",
+        "A. every chain of <= {} one-hole contexts ({} contexts, the 26 extended ones - nested quasiquote (also as a dotted tail), case => (also as the last clause), multi-expression cond clause, multi-list map / for-each, let with internal define, empty let*, a promise forced twice, apply of map, accumulating named let, and / or / when / unless / one-armed if with the hole as a non-final operand or test, set! of a global - only below the maximal depth: operand positions, fixed/variadic/rest lambdas, apply, let/let*/letrec/named let, begin, if, cond (else, =>, test-only), case (clause, key, else =>), and/or/when/unless, quasiquote (list, vector, nested, cdr), delay/force, internal defines, set!, map/for-each callbacks, call/cc (return, escape), returned closure, constructors, global procedure, eval) around each of {} leaves (constants of every data kind, innermost/outer local, global, set!-then-read of local/global, immediate closure, let rebinding, quasiquote templates over a local, fixed/variadic/apply calls of globals, a logging call, five failures) = {} programs, each run as the session (define g 100); program; g on the real VM and on the reference CEK machine and compared form by form (value or failure, display/write output); B. every sequence of <= {} of the {} top-level forms over globals g h f (definitions, redefinitions, set!, late-bound procedure bodies, calls) = {} sessions, renamed apart inside a shared VM and (length <= 3) verbatim in a fresh VM; E. every tree of if forms of depth <= 2 (one- and two-armed, constant tests, eight kinds of leaves incl. let and begin bodies and assignments whose value is itself a conditional) as a top-level form, as an operand, as a procedure body and in statement position of a body followed by a variable reference, a constant or a call; D. sixteen programs whose variables are spelled like the temporaries (var1, temp, atom-key), the free identifiers (not, memv, make-promise, begin) and the keywords (and, when) of the prelude's derived-form macros, or that define the prelude's helper procedures (any?, map1), with controls; C. every chain program of depth <= 2 also runs in a VM that first evaluated 60 unrelated globals, 5 macros, garbage and a collection, and (all of depth <= 1, every {}th of depth 2) twice in fresh VMs; all observations must be equal. Non-trivial = a program or session on which model and implementation agreed on every form (programs the model excludes - R7RS prescribes no outcome - are counted separately).",
         max_depth, CONTEXTS.len(), LEAVES.len(), programs, max_len, SESSION_FORMS.len(), sessions, ctx.tier.pick(11, 1)
     );
     rep.extra("chain_programs_enumerated", json!(programs));
